@@ -150,6 +150,11 @@ def run(chk, repo, tier):
     ws = [w for w in s.writes if w.param == 'self']
     chk.ob('C17-e', 'E-ownership', f.key, 'no write reaches the original plane', not ws,
            '; '.join(f'{w.how} at {w.loc}' for w in ws[:3]), f.loc())
+    if repo.has_func('plane.Plane.resample'):
+        fr_ = repo.func('plane.Plane.resample')
+        ws_ = [w for w in eff.summary(fr_).writes if w.param == 'self']
+        chk.ob('C17-e', 'E-ownership', fr_.key, 'no write reaches the original plane', not ws_,
+               '; '.join(f'{w.how} on {w.detail} at {w.loc}' for w in ws_[:3]), fr_.loc())
     # segmented branch: one rescale per segment
     seg_ok = False
     for p in rets:
